@@ -219,7 +219,7 @@ def lane(args):
                 if res['red']:
                     status, red = 'caught', res['red']
                     break
-                if res['err'] or not res['n']:
+                if res['err'] or (not res['n'] and not res['oos']):
                     # this module has nothing to say about the function under this property (or tripped over
                     # something else in the file): an error only if no module gives a verdict
                     errs += 1
